@@ -37,14 +37,14 @@ var errC15Close = errors.New("c15 connection closed")
 
 // peer frame kinds
 const (
-	c15KStream  = iota // STREAM, 1 byte at offset 0, no FIN
-	c15KFin            // STREAM, 1 byte at offset 0, FIN
-	c15KReset          // RESET_STREAM, final size 1
-	c15KStop           // STOP_SENDING
-	c15KMaxData        // MAX_STREAM_DATA
-	c15KBlocked        // STREAM_DATA_BLOCKED
-	c15KMaxData1       // MAX_STREAM_DATA(1): opens the send window for a single byte
-	c15KMaxData3       // MAX_STREAM_DATA(3)
+	c15KStream   = iota // STREAM, 1 byte at offset 0, no FIN
+	c15KFin             // STREAM, 1 byte at offset 0, FIN
+	c15KReset           // RESET_STREAM, final size 1
+	c15KStop            // STOP_SENDING
+	c15KMaxData         // MAX_STREAM_DATA
+	c15KBlocked         // STREAM_DATA_BLOCKED
+	c15KMaxData1        // MAX_STREAM_DATA(1): opens the send window for a single byte
+	c15KMaxData3        // MAX_STREAM_DATA(3)
 	c15NKinds
 )
 
